@@ -1,4 +1,5 @@
-// Command ssa2lean4 (generation 4: ssa2lean3 + closures that capture variables
+// Command ssa2lean6 (generation 6: ssa2lean4 + reflect.Value as an abstract value tree and direct recursion, see
+// reflect.go; generation 4: ssa2lean3 + closures that capture variables
 // by reference and call themselves recursively, see closure.go and README.md)
 // translates the SSA form of selected functions of
 // github.com/openacid/low into Lean 4 definitions (one file per function under
@@ -113,10 +114,17 @@ var gen4Targets = []string{
 	"pbcmpl.verStr",
 }
 
-var targetList = append(append(append(append([]string{}, legacyTargets...), newTargets...), gen3Targets...), gen4Targets...)
+// The TARGET LIST of ssa2lean6 (generated into lean/Generated/Ssa6, namespace
+// Low.Gen.Ssa6): directly recursive functions over reflect.Value (reflect.go).
+var gen6Targets = []string{
+	"size.sizeof",
+	"size.Of",
+}
+
+var targetList = append(append(append(append(append([]string{}, legacyTargets...), newTargets...), gen3Targets...), gen4Targets...), gen6Targets...)
 
 func fatalf(format string, args ...interface{}) {
-	fmt.Fprintf(os.Stderr, "ssa2lean4: FATAL: "+format+"\n", args...)
+	fmt.Fprintf(os.Stderr, "ssa2lean6: FATAL: "+format+"\n", args...)
 	os.Exit(1)
 }
 
@@ -128,6 +136,7 @@ func main() {
 	quiet := flag.Bool("q", false, "do not print the per-function report")
 	dump := flag.Bool("dump", false, "print go/ssa's listing of the selected targets and exit")
 	extra := flag.String("extra", "", "comma-separated functions to translate IN ADDITION to the target list, as generation-4 targets (experiments and the differential test of the translator; they have no tie)")
+	extra6 := flag.String("extra6", "", "like -extra, but the functions are translated as generation-6 targets (reflect vocabulary, direct recursion)")
 	flag.Parse()
 	for _, t := range strings.Split(*extra, ",") {
 		if t = strings.TrimSpace(t); t != "" {
@@ -135,8 +144,14 @@ func main() {
 			targetList = append(targetList, t)
 		}
 	}
+	for _, t := range strings.Split(*extra6, ",") {
+		if t = strings.TrimSpace(t); t != "" {
+			gen6Targets = append(gen6Targets, t)
+			targetList = append(targetList, t)
+		}
+	}
 	if *outdir == "" && !*dump {
-		fmt.Fprintln(os.Stderr, "usage: ssa2lean4 -repo /repo -outdir DIR [-only pkg.Func,...]")
+		fmt.Fprintln(os.Stderr, "usage: ssa2lean6 -repo /repo -outdir DIR [-only pkg.Func,...]")
 		os.Exit(1)
 	}
 	absRepo, err := filepath.Abs(*repo)
@@ -147,7 +162,7 @@ func main() {
 		fatalf("%s is not a Go module root (no go.mod)", absRepo)
 	}
 
-	selected := gen4Targets
+	selected := gen6Targets
 	if *only != "" {
 		known := map[string]bool{}
 		for _, t := range targetList {
@@ -167,7 +182,7 @@ func main() {
 	}
 
 	prog, pkgs := load(absRepo, *tags, targetList)
-	tr := newTranslator(prog, pkgs, targetList, legacyTargets, newTargets, gen3Targets)
+	tr := newTranslator(prog, pkgs, targetList, legacyTargets, newTargets, gen3Targets, gen4Targets)
 	if *dump {
 		for _, name := range selected {
 			if f := tr.byName[name]; f != nil {
@@ -209,7 +224,7 @@ func main() {
 		}
 	}
 	if failed > 0 {
-		fmt.Fprintf(os.Stderr, "ssa2lean4: %d of %d target(s) could not be translated\n", failed, len(selected))
+		fmt.Fprintf(os.Stderr, "ssa2lean6: %d of %d target(s) could not be translated\n", failed, len(selected))
 		os.Exit(2)
 	}
 }
@@ -225,7 +240,10 @@ func genNames(gen int) (tool, ns, tie string) {
 	case 3:
 		return "tools/ssa2lean3", "Low.Gen.Ssa3", "LowProofs/Tie3"
 	}
-	return "tools/ssa2lean4", "Low.Gen.Ssa4", "LowProofs/Tie4"
+	case 4:
+		return "tools/ssa2lean4", "Low.Gen.Ssa4", "LowProofs/Tie4"
+	}
+	return "tools/ssa2lean6", "Low.Gen.Ssa6", "LowProofs/Tie6"
 }
 
 // leanNameOf maps "bitmap.Get" to "bitmap_Get".
